@@ -168,8 +168,12 @@ pub fn encode(input: &[u8], sc: &Script) -> Result<(Vec<u8>, Forms), String> {
     if total != input.len() {
         return Err("script does not cover the input".into());
     }
-    if sc.runs.iter().any(|r| r.1 == 0) {
-        return Err("empty run".into());
+    // an empty run (latch with no character of that mode) is only accepted directly in front of the final
+    // ASCII run, where the end-of-symbol rules hand the remaining symbol characters to ASCII
+    for (k, r) in sc.runs.iter().enumerate() {
+        if r.1 == 0 && !(k + 2 == sc.runs.len() && sc.runs[k + 1].0 == Mode::Ascii && matches!(r.0, Mode::C40 | Mode::Text | Mode::X12 | Mode::Edifact)) {
+            return Err("empty run".into());
+        }
     }
     for w in sc.runs.windows(2) {
         if w[0].0 == w[1].0 && w[0].0 != Mode::Base256 && w[0].0 != Mode::Ascii {
